@@ -224,6 +224,24 @@ Definition allocate_override (lockloc : loc) (nr : bool) (ds : list decl) (ov : 
   pos <- override_interval (loc_eqb lockloc LStorage) ov nrslot (reqs_module nr ds) ;;
   Ok (es, pos).
 
+(* ---- generate_layout_export: a second traversal of the module tree that reads the position
+   recorded on each variable (varinfo.position) ---- *)
+Definition posmap := list (path * Z).
+Fixpoint pos_get (m : posmap) (p : path) : option Z :=
+  match m with [] => None | (q, v) :: m' => if path_eqb q p then Some v else pos_get m' p end.
+Definition positions_of (es : list entry) : posmap := map (fun e => (e_path e, e_off e)) es.
+
+(* one exported item: qualified name, location, size (n_slots / length), position (slot / offset) *)
+Definition xitem := (path * loc * Z * option Z)%type.
+Fixpoint export_decl (m : posmap) (p : path) (d : decl) : list xitem :=
+  match d with
+  | DVar nm l sz => [(p ++ [nm], l, sz, pos_get m (p ++ [nm]))]
+  | DInit al _ body =>
+      (fix go (ds : list decl) := match ds with [] => [] | d :: ds' => export_decl m (p ++ [al]) d ++ go ds' end) body
+  end.
+Fixpoint export_decls (m : posmap) (p : path) (ds : list decl) : list xitem :=
+  match ds with [] => [] | d :: ds' => export_decl m p d ++ export_decls m p ds' end.
+
 (* ---- harness output helpers (flat Z lists) ---- *)
 Definition entries_out (es : list entry) : list Z :=
   flat_map (fun e => [loc_code (e_loc e); e_off e; e_size e]) es.
